@@ -131,6 +131,13 @@ def gen_state(rng, big=False, now=1700000000):
                         free.append(p + j)
             deleted = [(p, rbytes(rng, hs)) for p in sorted(set(free))]
         useds.append(set(used))
+        # a disk without any file: only directories / only links / nothing (fs_is_empty: files, links, DIRS or a block below blockmax)
+        if di != top_owner and rng.random() < 0.12:
+            kind = rng.choice(['dirs', 'links', 'nothing'])
+            files, used, deleted = [], [], []
+            dirs = [rname(rng) for _ in range(rng.choice([1, 2]))] if kind == 'dirs' else []
+            links = [dict(hard=rng.random() < 0.5, sub=rname(rng), to=rname(rng))] if kind == 'links' else []
+            useds[-1] = set()
         disks.append(dict(name=names[di].encode(), files=files, links=links, dirs=dirs, deleted=deleted))
     # DELETED blocks that survive the save: at positions where another disk has a file block
     allused = set().union(*useds) if useds else set()
